@@ -120,7 +120,12 @@ class Keccak(object):
                 Pb = Pb[r:]
             Pi = P.read(br)
         # pad10*1 (with little-endian convention) :
-        Pb = Pb//Bits(1)//Bits(0,size=r-len(Pb)-2)//Bits(1)
+        Pb = Pb//Bits(1)
+        if len(Pb)==r:
+            # no room left for the final pad bit: it goes into an extra block
+            yield Pb
+            Pb = Bits(0,size=0)
+        Pb = Pb//Bits(0,size=r-len(Pb)-1)//Bits(1)
         yield Pb
 
     # Duplex construction (see "Cryptographic Sponge Functions", http://sponge.noekeon.org)
